@@ -1,6 +1,6 @@
 """C05 — T-HOO, HCT and VHCT pull the cell chosen by the published optimistic index."""
 from .. import configs
-from ..algorun import replay_algo, run_algo_task
+from ..algorun import bystander_tasks, replay_algo, run_algo_task
 from ..refs.tree_bandits import TreeBanditOracle
 
 ID = "C05"
@@ -52,6 +52,7 @@ def tasks(tier, seed, which="C05"):
                            "R": list(configs.R2), "rng_k": 2 if d2 else None, "cost": 3})
                 ts.append({"kind": "algo", "label": "full3/" + lab, "cfg": cfg, "mode": "full", "T": 6 if tier == "quick" else 8,
                            "R": list(configs.R3), "rng_k": 1 if d2 else None, "cost": 3})
+                ts += bystander_tasks(lab, configs.shifted(cfg), configs.R3, T_long=70, k=1 if tier == "quick" else 2)
                 for base in (("peak", "alt", "off8") if tier == "quick" else ("peak", "alt", "off8", "zero", "twopeak", "negpeak")):
                     ts.append({"kind": "algo", "label": "dev/%s/%s" % (lab, base), "cfg": cfg, "mode": "dev", "T": 70,
                                "R": list(configs.R3), "base": base, "k": 1 if tier == "quick" else 2,
